@@ -245,7 +245,11 @@ class C14(Check):
                 if dr.random() < 0.7:
                     steps.append({"op": "insertN", "b": b, "evs": [{"ev": gen.event(dr, lat)} for _ in range(dr.randrange(1, 5))]})
             steps.append({"op": "switch_profile", "testing": profile})
-        steps += actors.creates(rs["meta"], buckets[: r.randrange(0, nb + 1)] if r.random() < 0.15 else buckets, cfg)
+        cr = actors.creates(rs["meta"], buckets[: r.randrange(0, nb + 1)] if r.random() < 0.15 else buckets, cfg)
+        for c_ in cr:
+            if rs["emptyname"].random() < 0.08:
+                c_["meta"]["name"] = ""  # legacy data is whatever it is
+        steps += cr
         parties = []
         for k, b in enumerate(buckets):
             parties.append(actors.Importer(rs["imp%d" % k], cfg, b))
